@@ -59,6 +59,7 @@ func genEngine(c *Ctx) error {
 	walFocus, journalFocus := c.Flag("wal"), c.Flag("journal")
 	if !journalFocus && !c.Flag("drop") {
 		directedWALShrink(c)
+		directedWALGrowShrinkCheckpoint(c)
 	}
 	if c.Flag("drop") {
 		directedDropRestart(c)
@@ -362,6 +363,56 @@ func directedDropRestart(c *Ctx) {
 			do("snapshot")
 			c.Count("directed.drop-restart")
 			c.Nontrivial(fmt.Sprintf("directed-drop-restart-%d-%v", ps, again))
+			cs.End()
+		}
+	}
+}
+
+// directedWALGrowShrinkCheckpoint: one WAL generation holds a transaction that grows the database
+// and a later one that shrinks it below pages the first one wrote (growth followed by a vacuum);
+// then LiteFS checkpoints (the live path: halt, lease change, Checkpoint) and the node restarts.
+// After the checkpoint the database file is exactly the last commit's pages.
+func directedWALGrowShrinkCheckpoint(c *Ctx) {
+	r := c.Rng
+	for _, ps := range []int{512, 4096} {
+		for _, restartFirst := range []bool{false, true} {
+			cs := c.Begin()
+			do := func(op string) string { c.Count("op." + strings.SplitN(op, " ", 2)[0]); return cs.Do(op) }
+			p := newPager(r, ps, do)
+			do("open primary")
+			do("createdb")
+			n := r.Range(3, 8)
+			all := txShape{newN: n, pages: map[int]bool{}, commit: true}
+			for pg := 1; pg <= n; pg++ {
+				all.pages[pg] = true
+			}
+			p.journalTx(all, 0, 0)
+			p.wal = true
+			p.journalTx(txShape{newN: n, pages: map[int]bool{1: true}, commit: true}, 0, 0)
+			observe(c, cs, p, "directed wal grow-shrink: to wal")
+			grow := txShape{newN: n + 2, pages: map[int]bool{1: true, n + 1: true, n + 2: true}, commit: true}
+			p.walTx(grow, false, false, false)
+			observe(c, cs, p, "directed wal grow-shrink: grown")
+			cut := r.Range(1, n-1)
+			p.walTx(txShape{newN: n - cut, pages: map[int]bool{1: true}, commit: true}, false, false, false)
+			observe(c, cs, p, "directed wal grow-shrink: shrunk")
+			if restartFirst {
+				do("reopen")
+				p.restarted()
+				observe(c, cs, p, "directed wal grow-shrink: restarted")
+			}
+			do("ckpt")
+			p.walInit = false
+			p.walPages = map[uint32][]byte{}
+			p.walOff = 0
+			observe(c, cs, p, "directed wal grow-shrink: checkpoint")
+			p.walTx(txShape{newN: n - cut + 1, pages: map[int]bool{1: true, n - cut + 1: true}, commit: true}, false, false, false)
+			observe(c, cs, p, "directed wal grow-shrink: one more transaction")
+			do("reopen")
+			p.restarted()
+			observe(c, cs, p, "directed wal grow-shrink: restarted at the end")
+			c.Count("directed.wal-grow-shrink")
+			c.Nontrivial(fmt.Sprintf("directed-wal-grow-shrink-%d-%v", ps, restartFirst))
 			cs.End()
 		}
 	}
